@@ -46,8 +46,8 @@ func checkC12(c *Ctx) {
 	r.Min("C12.authorised", 5)
 	r.Min("C12.amount", 2)
 	r.Min("C12.recipient", 2)
-	r.Min("C12.once", 1)
-	r.Min("C12.expiry", 2)
+	r.Min("C12.once", 2)
+	r.Min("C12.expiry", 3)
 	if len(rfs) == 0 {
 		r.Undecided("C12.authorised", "role", "-", "no refund function (mint + pool delete) found")
 		return
@@ -281,6 +281,15 @@ func checkC12(c *Ctx) {
 			r.Ok("C12.once", fname(f), c.pos(mint.At), "pool entry deleted on every success path after the mint")
 		}
 
+		// no path removes the entry without paying: every delete of the pool entry is preceded by the mint
+		entry := f.Blocks[0].Instrs[0]
+		for _, d := range dl {
+			paid := (d.Block() == mint.At.Block() && ana.InstrIndex(mint.At) < ana.InstrIndex(d)) ||
+				(d.Block() != mint.At.Block() && !ana.ReachesWithout(entry, d, map[*ssa.BasicBlock]bool{mint.At.Block(): true}))
+			r.Check(paid, "C12.once", "paid-before-delete:"+fname(f), c.pos(d), "the pool entry is deleted only after the refund was minted",
+				"the refund function can delete the pool entry on a path that never mints the refund: the transfer disappears and nothing is paid back")
+		}
+
 		// ---- message path -------------------------------------------------------------
 		for _, e := range p.In[f] {
 			if !isRoot(e.Caller, roots.Msg) {
@@ -328,6 +337,7 @@ func checkC12(c *Ctx) {
 		endReach := p.Reach(roots.End...)
 		beginReach := p.Reach(roots.Begin...)
 		nSweep := 0
+		sweepFns := map[*ssa.Function]bool{}
 		var walk func(g *ssa.Function, depth int)
 		seen := map[*ssa.Function]bool{}
 		walk = func(g *ssa.Function, depth int) {
@@ -345,6 +355,7 @@ func checkC12(c *Ctx) {
 				in := e.Site.(ssa.Instruction)
 				if ana.Guarded(in, expired) {
 					nSweep++
+					sweepFns[ana.Outermost(e.Caller)] = true
 					// passes the entry's own id and sender
 					okI, okS := false, false
 					for _, a := range e.Site.Common().Args {
@@ -363,6 +374,7 @@ func checkC12(c *Ctx) {
 				// collect-then-refund: the entry passed is drawn from a local slice all of whose appends are guarded
 				if okC, det := c.collectedUnder(e.Caller, e.Site, expired); okC {
 					nSweep++
+					sweepFns[ana.Outermost(e.Caller)] = true
 					okI, okS := false, false
 					for _, a := range e.Site.Common().Args {
 						la := p.Leaves(a, ana.PVOpt{})
@@ -391,6 +403,36 @@ func checkC12(c *Ctx) {
 			}
 		}
 		walk(f, 0)
+		// the sweep looks at every pool entry: the pool is ordered by token and fee, not by age, so an iteration
+		// callback that can stop the scan (return true) leaves expired entries behind live ones unrefunded
+		for _, o := range sortedFuncs(sweepFns) {
+			var cbs []*ssa.Function
+			var collect func(g *ssa.Function)
+			collect = func(g *ssa.Function) {
+				for _, an := range g.AnonFuncs {
+					sig := an.Signature
+					if sig.Results().Len() == 1 && sig.Results().At(0).Type().String() == "bool" && sig.Params().Len() >= 1 {
+						if n := ana.NamedOf(sig.Params().At(sig.Params().Len() - 1).Type()); n != nil && n.Obj().Name() == "SendToExternal" {
+							cbs = append(cbs, an)
+						}
+					}
+					collect(an)
+				}
+			}
+			collect(o)
+			for _, cb := range cbs {
+				stops := ""
+				ana.Instrs(cb, func(in ssa.Instruction) {
+					if ret, ok := in.(*ssa.Return); ok && in.Parent() == cb && len(ret.Results) == 1 {
+						if k, ok := ret.Results[0].(*ssa.Const); !ok || k.Value == nil || k.Value.ExactString() != "false" {
+							stops = c.pos(in)
+						}
+					}
+				})
+				r.Check(stops == "", "C12.expiry", "full-scan:"+fname(cb), p.Pos(cb.Pos()), "the sweep's pool callback never stops the iteration",
+					"the expiry sweep's pool callback can stop the iteration (return at "+stops+" is not the constant false): expired transfers that sort behind a live one are neither refunded nor removed")
+			}
+		}
 		if nSweep == 0 {
 			r.Undecided("C12.expiry", fname(f), "-", "no guarded expiry sweep call found")
 		}
